@@ -308,6 +308,8 @@ def _gen_shared_prefix_case(n, rng):
     Judged additionally by non-interference: every thread is afterwards replayed alone on a fresh server state and must
     have got the same replies and the same stored history."""
     pool = _thread_pool(rng)[: rng.choice([2, 2, 3])]
+    cfg = rng.choice(["cfg_r", "cfg_ms"])
+    same_first = rng.random() < 0.6
     first = rng.choice(SHARED_TEXTS)
     turn = {}
     reqs = []
@@ -315,8 +317,8 @@ def _gen_shared_prefix_case(n, rng):
         tid = None if rng.random() < 0.08 else rng.choice(pool)
         k = turn.get(tid, 0)
         turn[tid] = k + 1
-        text = first if (k == 0 and rng.random() < 0.85) else rng.choice(SHARED_TEXTS)
-        reqs.append({"cfg": {"config_id": "cfg_r"}, "thread_id": tid, "messages": [{"role": "user", "content": text}],
+        text = first if (k == 0 and same_first and rng.random() < 0.85) else rng.choice(SHARED_TEXTS)
+        reqs.append({"cfg": {"config_id": cfg}, "thread_id": tid, "messages": [{"role": "user", "content": text}],
                      "context": None, "shape": "dict"})
     return {"id": n, "fam": "thr", "reqs": reqs, "real": True, "alone": True}
 
@@ -372,6 +374,16 @@ def setup_worker():
     with open(os.path.join(root, "cfg_r", "config.yml"), "w") as f:
         f.write("models:\n  - type: main\n    engine: c20fake\n    model: x\n  - type: embeddings\n    engine: c20emb\n    model: m\n"
                 'instructions:\n  - type: general\n    content: "%s"\n' % _mark("cfg_r"))
+
+    # multi-step generation: no flow handles the user intent, the LLM writes the next steps as a small flow that the (per-config,
+    # i.e. shared by all threads) runtime registers
+    os.makedirs(os.path.join(root, "cfg_ms"))
+    with open(os.path.join(root, "cfg_ms", "config.yml"), "w") as f:
+        f.write("models:\n  - type: main\n    engine: c20fake\n    model: x\n  - type: embeddings\n    engine: c20emb\n    model: m\n"
+                "enable_multi_step_generation: True\n"
+                'instructions:\n  - type: general\n    content: "%s"\n' % _mark("cfg_r"))
+    with open(os.path.join(root, "cfg_ms", "flows.co"), "w") as f:
+        f.write('define user ask something\n  "hi"\n  "hello there"\n\ndefine user ask other\n  "tell me more"\n  "and then?"\n  "thanks"\n')
 
     rec = {"paths": [], "get_rails": [], "gen": [], "built": [], "ctl": {}}
     real_rc = api.RailsConfig
@@ -442,6 +454,32 @@ def setup_worker():
     )
 
 
+_SAMPLING_KEY = [""]
+_MULTI_STEP = [False]
+
+
+def _c20_answer(prompt):
+    """the offline LLM: a function of the prompt - and, where the prompt shows no text at all (the next-steps prompt of
+    multi-step generation lists intents only), of a sampling key set per request from the conversation's first user message"""
+    tail = prompt.rstrip("\n").split("\n")[-1]
+    crc = zlib.crc32(prompt.encode("utf-8", "replace"))
+    if _MULTI_STEP[0]:  # the request is served by the multi-step config (cfg_ms)
+        if tail.startswith('user "'):
+            return "  ask other" if crc % 2 else "  ask something"
+        if tail.startswith("user ask"):
+            return "bot answer k%s\nbot add k%s" % (_SAMPLING_KEY[0], _SAMPLING_KEY[0][::-1])
+        if tail.startswith("bot "):
+            return '  "REAL-REPLY %d %08x"' % (len(prompt), crc)
+        # the verbose prompt format used for engines without a dedicated template
+        if tail.startswith("User message:"):
+            return "User intent: ask other" if crc % 2 else "User intent: ask something"
+        if tail.startswith("User intent:"):
+            return "Bot intent: answer k%s\nBot intent: add k%s" % (_SAMPLING_KEY[0], _SAMPLING_KEY[0][::-1])
+        if tail.startswith("Bot intent:"):
+            return 'Bot message: "REAL-REPLY %d %08x"' % (len(prompt), crc)
+    return "REAL-REPLY %d %08x" % (len(prompt), crc)
+
+
 def _make_real_rails(rec):
     """The unmodified LLMRails driven by an offline fake LLM + fake embedding engine (config root/cfg_r); only
     generate_async is wrapped to record what it is handed."""
@@ -458,10 +496,10 @@ def _make_real_rails(rec):
             return "c20fake"
 
         def _call(self, prompt, stop=None, run_manager=None, **kw):
-            return "REAL-REPLY %d %08x" % (len(prompt), zlib.crc32(prompt.encode("utf-8", "replace")))
+            return _c20_answer(prompt)
 
         async def _acall(self, prompt, stop=None, run_manager=None, **kw):
-            return "REAL-REPLY %d %08x" % (len(prompt), zlib.crc32(prompt.encode("utf-8", "replace")))
+            return _c20_answer(prompt)
 
     class C20Emb(EmbeddingModel):
         engine_name = "c20emb"
@@ -487,6 +525,9 @@ def _make_real_rails(rec):
 
         async def generate_async(self, prompt=None, messages=None, options=None, state=None, streaming_handler=None, **kw):
             before = json.dumps(messages)
+            first_user = next((m_.get("content") for m_ in (messages or []) if isinstance(m_, dict) and m_.get("role") == "user"), "")
+            _SAMPLING_KEY[0] = "%08x" % zlib.crc32(json.dumps(first_user).encode())
+            _MULTI_STEP[0] = bool(getattr(self.config, "enable_multi_step_generation", False))
             g = {"messages": json.loads(before), "marks": self.marks, "streaming_handler": streaming_handler is not None}
             rec["gen"].append(g)
             try:
@@ -917,7 +958,7 @@ def _run_thread_case(case):
             obs["validation_422"] += 1
             continue
         if kind == "fixed":
-            if all(x in GOOD or x == "cfg_r" for x in ids):
+            if all(x in GOOD or x in ("cfg_r", "cfg_ms") for x in ids):
                 return viol("thread-request-fixed", i, req, reply=kind, why="a real config was refused")
             obs["hostile_in_thread_sequence"] += 1
             if out["gen"]:
@@ -986,7 +1027,7 @@ def _run_thread_case(case):
             for i, _r in seq:
                 req = case["reqs"][i]
                 W["rec"]["ctl"] = {"reply": None, "shape": "dict", "fail": False}
-                out = _post({"config_id": "cfg_r", "thread_id": tid, "messages": json.loads(json.dumps(req["messages"]))})
+                out = _post({"config_id": req["cfg"]["config_id"], "thread_id": tid, "messages": json.loads(json.dumps(req["messages"]))})
                 obs["requests"] += 1
                 alone.append(out["json"]["messages"][0].get("content") if isinstance(out.get("json"), dict) and out["json"].get("messages") else None)
             obs["threads_replayed_alone"] = obs.get("threads_replayed_alone", 0) + 1
